@@ -8,7 +8,8 @@ CONSTANTS SizeEntries     \* files besides Chart.yaml in a size stream
 
 \* the case space: the families are disjoint (field fam), so they are concatenated rather than united
 \* (TLC's union of two large enumerated sets is quadratic); a case is addressed by its index = its id
-CaseSeq == SetToSeq(CasesLock) \o SetToSeq(CasesTwo) \o SetToSeq(CasesSize(SizeEntries)) \o SetToSeq(CasesExpandName)
+CaseSeq == SetToSeq(CasesLock) \o SetToSeq(CasesTwo) \o SetToSeq(CasesSizeRead) \o SetToSeq(CasesDownload)
+           \o SetToSeq(CasesSize(SizeEntries)) \o SetToSeq(CasesExpandName)
            \o SetToSeq(CasesLoad) \o SetToSeq(CasesExtract) \o SetToSeq(CasesExpand)
 
 VARIABLE s
@@ -22,6 +23,7 @@ InvConfinedAlways == ConfinedAlways(s)
 InvNames      == NamesClean(s)
 InvSizeReject == SizeRejected(s)
 InvSizeBound  == SizeBounded(s)
+InvNoOversizeBody == NoOversizeBody(s)
 \* the step function and its iteration agree (Run is what gets exported)
 InvRun        == s.pc = "done" => Run(s.c) = s
 
@@ -30,7 +32,7 @@ PathsOf(t) == SetToSeq({[p |-> x.p, t |-> x.t] : x \in t})
 Exported(i) ==
   LET c == CaseSeq[i]  r == Run(c) IN
   [id |-> i, fam |-> c.fam, op |-> c.op, stream |-> c.stream, layout |-> c.layout, cname |-> c.cname, api |-> c.api,
-   lock |-> c.lock, flim |-> FLim, tlim |-> TLim,
+   lock |-> c.lock, flim |-> FLim, tlim |-> TLimOf(c),
    expect |-> "error-or-confined",
    spec |-> [err |-> r.res = "err", touched |-> PathsOf(r.w.touched), names |-> SetToSeq(r.names)]]
 Export == ndJsonSerialize("c16_cases.ndjson", [i \in 1..Len(CaseSeq) |-> Exported(i)])
